@@ -626,6 +626,9 @@ RULES["R08.6"] = "flat <-> CxHxW transitions: Tensor::flatten / get_flat / get_t
 def run(ctx):
     ctx.guard("R08.6", "reshaping-helpers", r6_helpers, ctx)
     ctx.guard("R08.6", "flatten-on-dense", r6_flatten_on_dense, ctx)
+    # a flat vector feeding a spatial layer is read as 1 x r x r with r taken from the layer's own *inputs* (the re-chunking facts of R02.3)
+    for l_ in spatial.LAYERS:
+        ctx.guard("R08.6", "flat-input:" + l_, spatial.flat_rechunk, ctx, "R08.6", l_)
     _old_run(ctx)
     ctx.guard("R08.1", "announced-vs-produced", r1, ctx)
     ctx.guard("R08.2", "gradient-shapes", r2, ctx)
